@@ -6,9 +6,12 @@
 pub mod alloc;
 pub mod cpu;
 pub mod panicmon;
+pub mod model;
 pub mod muxdrive;
 pub mod prng;
+pub mod readcheck;
 pub mod refdec;
+pub mod refenc;
 pub mod report;
 pub mod streams;
 pub mod props;
